@@ -1,12 +1,15 @@
 package pstree
 
 import (
+	"cmp"
 	"fmt"
 	"math"
 	"sort"
+	"strconv"
 	"strings"
 
 	"github.com/creachadair/mds/omap"
+	"verif/elem"
 	"verif/vk"
 )
 
@@ -24,6 +27,23 @@ type MapCase struct {
 	Cmp  string `json:"cmp"`           // "nat", "rev", "half" (compare k/2: equivalence classes of two keys)
 	Zero bool   `json:"zero"`          // use the zero Map (read-only empty map)
 	Ops  []MOp  `json:"ops"`
+	// Elem selects the key type: "" is int as before; "int", "string", "i16",
+	// "wide", "ptr", "any" and "bytes" are the kinds of package elem.  The reference and
+	// every argument stay key numbers (-4..103); a key is converted where it
+	// enters or leaves the library.  The ordered kinds are constructed by
+	// omap.New when Cmp is "nat" and Mag is 0, all others by NewFunc.
+	Elem string `json:"elem,omitempty"`
+	// Val selects the value type: "" is int as before; "int", "string" and
+	// "ptr" (kinds of package elem), "label" (*Label, a String method on the
+	// pointer receiver) and "fmt" (Dual, a fmt.Formatter that is also a
+	// fmt.Stringer).  With a kind other than "" some Sets store the zero value
+	// of the type (a nil pointer, "", 0) and some store a new value equal to
+	// the one already held.
+	Val string `json:"val,omitempty"`
+	// Span 1 spreads the key numbers over the whole range of the key type: the
+	// lowest numbers sit at its minimum, the highest at its maximum, the others
+	// around 0 (the order of the numbers is kept).
+	Span int `json:"span,omitempty"`
 }
 
 func mapCmp(kind string, mag int) func(a, b int) int {
@@ -56,43 +76,228 @@ func mapCmp(kind string, mag int) func(a, b int) int {
 	return c3
 }
 
-type kv struct{ k, v int }
+// Label is a map value with a String method on the pointer receiver that
+// reads the pointee.  A nil *Label is a legitimate value of a map; fmt prints
+// it as <nil>.
+type Label struct{ N int }
 
-type mapRun struct {
-	c   MapCase
-	cmp func(a, b int) int
-	m   [2]omap.Map[int, int] // two copies of the same Map value
-	ref []kv                  // sorted under cmp
+func (l *Label) String() string { return "L" + strconv.Itoa(l.N) }
+
+// labelKit: U = *Label.  Like elem.PtrKit every Make gives a new pointer and
+// pointees of equal value are deeply equal; the identities live in a table
+// that belongs to the kit (one kit per run).
+func labelKit() elem.Kit[*Label] {
+	ids := map[*Label]int{}
+	return elem.Kit[*Label]{Kind: "label", HasID: true,
+		Make: func(v, id int) *Label { l := &Label{N: v}; ids[l] = id; return l },
+		V:    func(l *Label) int { return l.N },
+		ID: func(l *Label) int {
+			if id, ok := ids[l]; ok {
+				return id
+			}
+			return -1 << 40 // a pointer the harness never made
+		},
+		Same: func(a, b *Label) bool { return a == b },
+	}
+}
+
+// Dual is a map value that implements fmt.Formatter and fmt.Stringer with
+// different texts: the verb %v uses Format.
+type Dual struct{ N, ID int }
+
+func (d Dual) String() string                { return "S" + strconv.Itoa(d.N) }
+func (d Dual) Format(s fmt.State, verb rune) { fmt.Fprintf(s, "F%d/%d", d.N, d.ID) }
+
+func dualKit() elem.Kit[Dual] {
+	return elem.Kit[Dual]{Kind: "fmt", HasID: true,
+		Make: func(v, id int) Dual { return Dual{N: v, ID: id} },
+		V:    func(d Dual) int { return d.N },
+		ID:   func(d Dual) int { return d.ID },
+		Same: func(a, b Dual) bool { return a == b },
+	}
+}
+
+// valueKit adapts an element kit to map values: value number 0 stands for the
+// zero value of U (what Get returns for an absent key, and a value a caller
+// may store as well).
+func valueKit[U any](k elem.Kit[U]) elem.Kit[U] {
+	mk, val, id, same := k.Make, k.V, k.ID, k.Same
+	var zero U
+	k.Make = func(v, i int) U {
+		if v == 0 {
+			return zero
+		}
+		return mk(v, i)
+	}
+	k.V = func(x U) int {
+		if same(x, zero) {
+			return 0
+		}
+		return val(x)
+	}
+	k.ID = func(x U) int {
+		if same(x, zero) {
+			return 0
+		}
+		return id(x)
+	}
+	return k
+}
+
+// kv is one entry of the reference: key number, value number, and the value
+// as it was handed to Set (for the kinds where equal-valued values can be
+// told apart).
+type kv[U any] struct {
+	k, v int
+	u    U
+}
+
+// noKey is the key number reported for a key element that is none of the
+// universe's (the zero value of a pointer or string key, an invented key).
+const noKey = 1 << 20
+
+// spreadKey maps key number k (-4..103) to the value its element carries when
+// Span is 1: the numbers up to 24 count up from lo, those from 75 count down
+// to hi, the others lie around 0.  unspreadKey is the inverse.
+func spreadKey(k, lo, hi int) int {
+	switch {
+	case k <= 24:
+		return lo + (k + 4)
+	case k >= 75:
+		return hi - (103 - k)
+	}
+	return k - 50
+}
+
+func unspreadKey(v, lo, hi int) int {
+	switch {
+	case v <= lo+28:
+		return v - lo - 4
+	case v >= hi-28:
+		return 103 - (hi - v)
+	case v >= -25 && v <= 24:
+		return v + 50
+	}
+	return noKey
+}
+
+type mapRun[K, U any] struct {
+	c    MapCase
+	kkit elem.Kit[K]
+	vkit elem.Kit[U]
+	nat  bool // built by omap.New: the key type's own order and equality apply, so keys carry no identity
+	cmp  func(a, b int) int
+	m    [2]omap.Map[K, U] // two copies of the same Map value
+	ref  []kv[U]           // sorted under cmp
 	// three iterator slots that are alive at the same time
-	its   [3]*omap.Iter[int, int]
+	its   [3]*omap.Iter[K, U]
 	poss  [3]int  // model position of each: index in ref, or -1 invalid
 	syncs [3]bool // the iterator is synchronised with the map (no edit since it was positioned)
 	cur   int     // slot addressed by the current op
 	step  int
+	kid   int // identity given to the key elements of the current op
 
 	deletes                  int
 	seekInside, seekThenPrev bool
 	lastSeekInside           bool
+	zeroVals, sameVals       int
 }
 
-func (r *mapRun) errf(format string, args ...any) string {
+func (r *mapRun[K, U]) errf(format string, args ...any) string {
 	op := "start"
 	if r.step >= 0 && r.step < len(r.c.Ops) {
 		op = fmt.Sprintf("op#%d %+v", r.step, r.c.Ops[r.step])
 	}
-	return fmt.Sprintf("%s (cmp %s, zero %v): %s", op, r.c.Cmp, r.c.Zero, fmt.Sprintf(format, args...))
+	el := ""
+	if r.c.Elem != "" || r.c.Val != "" || r.c.Span != 0 {
+		el = fmt.Sprintf(", key %q value %q span %d", r.c.Elem, r.c.Val, r.c.Span)
+	}
+	return fmt.Sprintf("%s (cmp %s, zero %v%s): %s", op, r.c.Cmp, r.c.Zero, el, fmt.Sprintf(format, args...))
+}
+
+// keyRange is the range of values a key element can carry.
+func (r *mapRun[K, U]) keyRange() (lo, hi int) {
+	if r.kkit.Kind == elem.I16 {
+		return math.MinInt16, math.MaxInt16
+	}
+	return math.MinInt, math.MaxInt
+}
+
+// mkKey converts key number k into a key element.  For the "ptr" and "any"
+// kinds every call allocates a new cell.
+func (r *mapRun[K, U]) mkKey(k int) K {
+	if r.c.Span%2 == 1 {
+		lo, hi := r.keyRange()
+		k = spreadKey(k, lo, hi)
+	}
+	return r.kkit.Make(k, r.kid)
+}
+
+func (r *mapRun[K, U]) keyIsZero(x K) bool {
+	var zero K
+	return r.kkit.Same(x, zero)
+}
+
+// kn is the key number of a key element that came out of the library (or is
+// handed to the comparison function).
+func (r *mapRun[K, U]) kn(x K) int {
+	if r.kkit.Kind != elem.Int && r.kkit.Kind != elem.I16 && r.keyIsZero(x) {
+		return noKey // the zero value of these kinds is not a key of the universe
+	}
+	v := r.kkit.V(x)
+	if r.c.Span%2 == 1 {
+		lo, hi := r.keyRange()
+		return unspreadKey(v, lo, hi)
+	}
+	return v
+}
+
+func (r *mapRun[K, U]) kns(xs []K) []int {
+	out := make([]int, len(xs))
+	for i, x := range xs {
+		out[i] = r.kn(x)
+	}
+	return out
+}
+
+func (r *mapRun[K, U]) valIsZero(x U) bool {
+	var zero U
+	return r.vkit.Same(x, zero)
+}
+
+// entry makes the reference entry (and with it the value element) for a Set.
+func (r *mapRun[K, U]) entry(k, v, id int) kv[U] {
+	return kv[U]{k: k, v: v, u: r.vkit.Make(v, id)}
+}
+
+// veq reports whether a value that came out of the library is the one the
+// reference entry holds: the same value number and, for the kinds that can
+// tell equal-valued values apart, the very value handed to Set.
+func (r *mapRun[K, U]) veq(got U, want kv[U]) bool {
+	if r.vkit.V(got) != want.v {
+		return false
+	}
+	return !r.vkit.HasID || r.vkit.Same(got, want.u)
+}
+
+// vs prints a value: its number, and its identity where the kind has one.
+func (r *mapRun[K, U]) vs(x U) string {
+	if !r.vkit.HasID {
+		return strconv.Itoa(r.vkit.V(x))
+	}
+	return fmt.Sprintf("%d#%d", r.vkit.V(x), r.vkit.ID(x))
 }
 
 // lower returns the index of the first reference entry with key >= k under cmp.
-func (r *mapRun) lower(k int) int {
+func (r *mapRun[K, U]) lower(k int) int {
 	return sort.Search(len(r.ref), func(i int) bool { return r.cmp(r.ref[i].k, k) >= 0 })
 }
-func (r *mapRun) find(k int) (int, bool) {
+func (r *mapRun[K, U]) find(k int) (int, bool) {
 	i := r.lower(k)
 	return i, i < len(r.ref) && r.cmp(r.ref[i].k, k) == 0
 }
 
-func (r *mapRun) checkIter(what string) string {
+func (r *mapRun[K, U]) checkIter(what string) string {
 	for slot := range r.its {
 		if m := r.checkIterSlot(slot, what); m != "" {
 			return m
@@ -101,7 +306,7 @@ func (r *mapRun) checkIter(what string) string {
 	return ""
 }
 
-func (r *mapRun) checkIterSlot(slot int, what string) string {
+func (r *mapRun[K, U]) checkIterSlot(slot int, what string) string {
 	it, pos := r.its[slot], r.poss[slot]
 	if it == nil || !r.syncs[slot] {
 		return ""
@@ -109,9 +314,9 @@ func (r *mapRun) checkIterSlot(slot int, what string) string {
 	what = fmt.Sprintf("%s (iterator slot %d)", what, slot)
 	if pos < 0 || pos >= len(r.ref) {
 		if it.IsValid() {
-			return r.errf("%s: iterator should be invalid but is at key %v", what, it.Key())
+			return r.errf("%s: iterator should be invalid but is at key %v", what, r.kn(it.Key()))
 		}
-		if it.Key() != 0 || it.Value() != 0 {
+		if !r.keyIsZero(it.Key()) || !r.valIsZero(it.Value()) {
 			return r.errf("%s: invalid iterator yields key %v value %v, want zeros", what, it.Key(), it.Value())
 		}
 		return ""
@@ -120,13 +325,13 @@ func (r *mapRun) checkIterSlot(slot int, what string) string {
 	if !it.IsValid() {
 		return r.errf("%s: iterator is invalid, should be at key %d", what, want.k)
 	}
-	if r.cmp(it.Key(), want.k) != 0 || it.Value() != want.v {
-		return r.errf("%s: iterator at %v:%v, reference entry %d is %d:%d", what, it.Key(), it.Value(), pos, want.k, want.v)
+	if r.cmp(r.kn(it.Key()), want.k) != 0 || !r.veq(it.Value(), want) {
+		return r.errf("%s: iterator at %v:%v, reference entry %d is %d:%v", what, r.kn(it.Key()), r.vs(it.Value()), pos, want.k, r.vs(want.u))
 	}
 	return ""
 }
 
-func (r *mapRun) checkAll() string {
+func (r *mapRun[K, U]) checkAll() string {
 	for ci := 0; ci < 2; ci++ {
 		m := r.m[ci]
 		if got := m.Len(); got != len(r.ref) {
@@ -134,28 +339,33 @@ func (r *mapRun) checkAll() string {
 		}
 		keys := m.Keys()
 		if len(keys) != len(r.ref) {
-			return r.errf("copy %d: Keys has %d entries, reference %d: %v", ci, len(keys), len(r.ref), keys)
+			return r.errf("copy %d: Keys has %d entries, reference %d: %v", ci, len(keys), len(r.ref), r.kns(keys))
 		}
 		if len(r.ref) == 0 && keys != nil && r.c.Zero {
-			return r.errf("zero map Keys() = %v, want none", keys)
+			return r.errf("zero map Keys() = %v, want none", r.kns(keys))
 		}
 		var sb strings.Builder
 		sb.WriteString("omap[")
 		for i, k := range keys {
-			if r.cmp(k, r.ref[i].k) != 0 {
-				return r.errf("copy %d: Keys[%d] = %d, reference %d", ci, i, k, r.ref[i].k)
+			if r.cmp(r.kn(k), r.ref[i].k) != 0 {
+				return r.errf("copy %d: Keys[%d] = %d, reference %d", ci, i, r.kn(k), r.ref[i].k)
 			}
 			if i > 0 {
 				sb.WriteString(" ")
 			}
-			fmt.Fprintf(&sb, "%v:%v", k, r.ref[i].v)
+			// the key as Keys returned it and the value as it was handed to Set
+			fmt.Fprintf(&sb, "%v:%v", k, r.ref[i].u)
 		}
 		sb.WriteString("]")
-		if got := m.String(); got != sb.String() {
+		var got string
+		if pv := vk.PanicValue(func() { got = m.String() }); pv != nil {
+			return r.errf("copy %d: String panicked: %v (the map should print as %q)", ci, pv, sb.String())
+		}
+		if got != sb.String() {
 			return r.errf("copy %d: String = %q, want %q", ci, got, sb.String())
 		}
 		for i := range keys { // Keys returns a fresh slice: scribbling on it must not reach the map
-			keys[i] = -31337
+			keys[i] = r.kkit.Make(-31337, 0)
 		}
 	}
 	// full forward and backward iteration
@@ -165,8 +375,8 @@ func (r *mapRun) checkAll() string {
 		if i >= len(r.ref) {
 			return r.errf("First/Next iteration yields more than %d entries", len(r.ref))
 		}
-		if r.cmp(it.Key(), r.ref[i].k) != 0 || it.Value() != r.ref[i].v {
-			return r.errf("First/Next iteration entry %d = %v:%v, reference %d:%d", i, it.Key(), it.Value(), r.ref[i].k, r.ref[i].v)
+		if r.cmp(r.kn(it.Key()), r.ref[i].k) != 0 || !r.veq(it.Value(), r.ref[i]) {
+			return r.errf("First/Next iteration entry %d = %v:%v, reference %d:%v", i, r.kn(it.Key()), r.vs(it.Value()), r.ref[i].k, r.vs(r.ref[i].u))
 		}
 		i++
 	}
@@ -178,8 +388,8 @@ func (r *mapRun) checkAll() string {
 		if i < 0 {
 			return r.errf("Last/Prev iteration yields more than %d entries", len(r.ref))
 		}
-		if r.cmp(it.Key(), r.ref[i].k) != 0 || it.Value() != r.ref[i].v {
-			return r.errf("Last/Prev iteration entry %d = %v:%v, reference %d:%d", i, it.Key(), it.Value(), r.ref[i].k, r.ref[i].v)
+		if r.cmp(r.kn(it.Key()), r.ref[i].k) != 0 || !r.veq(it.Value(), r.ref[i]) {
+			return r.errf("Last/Prev iteration entry %d = %v:%v, reference %d:%v", i, r.kn(it.Key()), r.vs(it.Value()), r.ref[i].k, r.vs(r.ref[i].u))
 		}
 		i--
 	}
@@ -190,7 +400,7 @@ func (r *mapRun) checkAll() string {
 }
 
 // absentKey picks a key not in the map: below all, above all or strictly inside.
-func (r *mapRun) absentKey(sel int) (int, bool) {
+func (r *mapRun[K, U]) absentKey(sel int) (int, bool) {
 	// candidate universe: -4..103; find one that is absent in the requested region
 	n := len(r.ref)
 	var cands []int
@@ -220,12 +430,76 @@ func (r *mapRun) absentKey(sel int) (int, bool) {
 	return cands[(sel/3)%len(cands)], true
 }
 
+// mapKeyKinds and mapValKinds list the values of MapCase.Elem and MapCase.Val
+// besides "".
+var (
+	mapKeyKinds = []string{elem.Int, elem.Str, elem.I16, elem.Wide, elem.Ptr, elem.Any, elem.Bytes}
+	mapValKinds = []string{elem.Int, elem.Str, elem.Ptr, "label", "fmt"}
+)
+
+// naturalMaps holds omap.New instantiated for one ordered key type and every
+// value type (nil functions for a key type without a natural order).
+type naturalMaps[K any] struct {
+	ints   func() omap.Map[K, int]
+	strs   func() omap.Map[K, string]
+	ptrs   func() omap.Map[K, *elem.Cell]
+	labels func() omap.Map[K, *Label]
+	duals  func() omap.Map[K, Dual]
+}
+
+func naturalOf[K cmp.Ordered]() naturalMaps[K] {
+	return naturalMaps[K]{omap.New[K, int], omap.New[K, string], omap.New[K, *elem.Cell], omap.New[K, *Label], omap.New[K, Dual]}
+}
+
+// runC04 is the RunFunc of C04's leg hist; it switches on the key kind, and
+// runMapKey on the value kind.
 func runC04(c MapCase, o *vk.Obs) string {
-	r := &mapRun{c: c, cmp: mapCmp(c.Cmp, c.Mag), poss: [3]int{-1, -1, -1}, step: -1}
+	switch c.Elem {
+	case "", elem.Int:
+		return runMapKey(c, o, elem.IntKit(), naturalOf[int]())
+	case elem.Str:
+		return runMapKey(c, o, elem.StrKit(), naturalOf[string]())
+	case elem.I16:
+		return runMapKey(c, o, elem.I16Kit(), naturalOf[int16]())
+	case elem.Wide:
+		return runMapKey(c, o, elem.WideKit(), naturalMaps[elem.WideElem]{})
+	case elem.Ptr:
+		return runMapKey(c, o, elem.PtrKit(), naturalMaps[*elem.Cell]{})
+	case elem.Any:
+		return runMapKey(c, o, elem.AnyKit(), naturalMaps[any]{})
+	case elem.Bytes:
+		return runMapKey(c, o, elem.BytesKit(), naturalMaps[[]byte]{})
+	}
+	return fmt.Sprintf("VK-INFRA unknown key kind %q", c.Elem)
+}
+
+func runMapKey[K any](c MapCase, o *vk.Obs, kk elem.Kit[K], nat naturalMaps[K]) string {
+	switch c.Val {
+	case "", elem.Int:
+		return runMapOn(c, o, kk, valueKit(elem.IntKit()), nat.ints)
+	case elem.Str:
+		return runMapOn(c, o, kk, valueKit(elem.StrKit()), nat.strs)
+	case elem.Ptr:
+		return runMapOn(c, o, kk, valueKit(elem.PtrKit()), nat.ptrs)
+	case "label":
+		return runMapOn(c, o, kk, valueKit(labelKit()), nat.labels)
+	case "fmt":
+		return runMapOn(c, o, kk, valueKit(dualKit()), nat.duals)
+	}
+	return fmt.Sprintf("VK-INFRA unknown value kind %q", c.Val)
+}
+
+// runMapOn interprets c on an omap.Map[K, U]; natural is omap.New for these
+// types, or nil if K has no natural order.
+func runMapOn[K, U any](c MapCase, o *vk.Obs, kk elem.Kit[K], vkit elem.Kit[U], natural func() omap.Map[K, U]) string {
+	elem.ResetPtr()
+	r := &mapRun[K, U]{c: c, kkit: kk, vkit: vkit, cmp: mapCmp(c.Cmp, c.Mag), poss: [3]int{-1, -1, -1}, step: -1}
+	r.nat = natural != nil && c.Cmp == "nat" && c.Mag%3 == 0
 	if !c.Zero {
-		r.m[0] = omap.NewFunc[int, int](r.cmp)
-		if c.Cmp == "nat" && c.Mag%3 == 0 {
-			r.m[0] = omap.New[int, int]()
+		if r.nat {
+			r.m[0] = natural()
+		} else {
+			r.m[0] = omap.NewFunc[K, U](func(a, b K) int { return r.cmp(r.kn(a), r.kn(b)) })
 		}
 	}
 	r.m[1] = r.m[0] // copies share contents
@@ -236,6 +510,14 @@ func runC04(c MapCase, o *vk.Obs) string {
 		r.step = i
 		m := r.m[op.B&1]
 		r.cur = op.I % 3
+		// Keys of kinds that carry an identity get one of three per op, so that a
+		// probe is sometimes the very key element stored and sometimes only
+		// equivalent to it under the comparison function; under omap.New the
+		// type's own equality decides, so every key element has identity 0.
+		r.kid = 0
+		if c.Elem != "" && kk.HasID && !r.nat {
+			r.kid = (op.A/2 + i) % 3
+		}
 		edit := false
 		switch op.Kind {
 		case "set", "setI":
@@ -249,22 +531,35 @@ func runC04(c MapCase, o *vk.Obs) string {
 			v := 1000 + i
 			if c.Zero {
 				// Set on a zero Map is documented to panic; nothing else may change.
-				if pv := vk.PanicValue(func() { m.Set(k, v) }); pv == nil {
+				if pv := vk.PanicValue(func() { m.Set(r.mkKey(k), r.vkit.Make(v, i+1)) }); pv == nil {
 					return r.errf("Set on a zero Map did not panic")
 				}
 				break
 			}
 			j, found := r.find(k)
-			got := m.Set(k, v)
+			if c.Val != "" {
+				switch sel := (op.A + i) % 6; {
+				case sel == 5: // the zero value of the value type (a nil pointer, "", 0)
+					v = 0
+					r.zeroVals++
+				case sel == 4 && found && r.ref[j].v != 0:
+					// a new value equal to the one held: for pointers a new cell
+					// whose pointee is deeply equal, only the pointer differs
+					v = r.ref[j].v
+					r.sameVals++
+				}
+			}
+			e := r.entry(k, v, i+1)
+			got := m.Set(r.mkKey(k), e.u)
 			if got != !found {
 				return r.errf("Set(%d) = %v, reference says key new = %v", k, got, !found)
 			}
 			if found {
-				r.ref[j] = kv{k, v}
+				r.ref[j] = e
 			} else {
-				r.ref = append(r.ref, kv{})
+				r.ref = append(r.ref, kv[U]{})
 				copy(r.ref[j+1:], r.ref[j:])
-				r.ref[j] = kv{k, v}
+				r.ref[j] = e
 			}
 			edit = true
 		case "del", "delI", "delAbsent":
@@ -277,7 +572,7 @@ func runC04(c MapCase, o *vk.Obs) string {
 				}
 			}
 			j, found := r.find(k)
-			if got := m.Delete(k); got != found {
+			if got := m.Delete(r.mkKey(k)); got != found {
 				return r.errf("Delete(%d) = %v, reference says present = %v", k, got, found)
 			}
 			if found {
@@ -293,15 +588,15 @@ func runC04(c MapCase, o *vk.Obs) string {
 			}
 			j := op.A % len(r.ref)
 			s := r.ref[j]
-			if v, ok := m.GetOK(s.k); !ok || v != s.v {
-				return r.errf("GetOK(%d) = (%v,%v), reference (%v,true)", s.k, v, ok, s.v)
+			if v, ok := m.GetOK(r.mkKey(s.k)); !ok || !r.veq(v, s) {
+				return r.errf("GetOK(%d) = (%v,%v), reference (%v,true)", s.k, r.vs(v), ok, r.vs(s.u))
 			}
 			nb := j - 1
 			if op.A/len(r.ref)%2 == 1 || nb < 0 {
 				nb = j + 1
 			}
 			if nb >= 0 && nb < len(r.ref) {
-				if !m.Delete(r.ref[nb].k) {
+				if !m.Delete(r.mkKey(r.ref[nb].k)) {
 					return r.errf("Delete(%d) of a present key reports false", r.ref[nb].k)
 				}
 				r.ref = append(r.ref[:nb], r.ref[nb+1:]...)
@@ -311,12 +606,17 @@ func runC04(c MapCase, o *vk.Obs) string {
 				}
 			}
 			nv := 5000 + i
-			if m.Set(s.k, nv) {
+			if c.Val != "" && (op.A+i)%3 == 1 && s.v != 0 {
+				nv = s.v // a new value equal to the one held
+				r.sameVals++
+			}
+			e := r.entry(s.k, nv, i+1)
+			if m.Set(r.mkKey(s.k), e.u) {
 				return r.errf("Set(%d) of a present key reports it as new", s.k)
 			}
-			r.ref[j].v = nv
-			if v, ok := m.GetOK(s.k); !ok || v != nv {
-				return r.errf("GetOK(%d) = (%v,%v) after Set(%d,%d) (a neighbouring key was deleted in between), want (%d,true)", s.k, v, ok, s.k, nv, nv)
+			r.ref[j].v, r.ref[j].u = e.v, e.u
+			if v, ok := m.GetOK(r.mkKey(s.k)); !ok || !r.veq(v, e) {
+				return r.errf("GetOK(%d) = (%v,%v) after Set(%d,%v) (a neighbouring key was deleted in between), want (%v,true)", s.k, r.vs(v), ok, s.k, r.vs(e.u), r.vs(e.u))
 			}
 			edit = true
 		case "clear":
@@ -333,14 +633,14 @@ func runC04(c MapCase, o *vk.Obs) string {
 				}
 			}
 			j, found := r.find(k)
-			v, ok := m.GetOK(k)
-			v2 := m.Get(k)
-			want := 0
+			v, ok := m.GetOK(r.mkKey(k))
+			v2 := m.Get(r.mkKey(k))
+			var want kv[U] // absent: the zero value
 			if found {
-				want = r.ref[j].v
+				want = r.ref[j]
 			}
-			if ok != found || v != want || v2 != want {
-				return r.errf("GetOK(%d) = (%v,%v), Get = %v; reference (%v,%v)", k, v, ok, v2, want, found)
+			if ok != found || !r.veq(v, want) || !r.veq(v2, want) || !found && !(r.valIsZero(v) && r.valIsZero(v2)) {
+				return r.errf("GetOK(%d) = (%v,%v), Get = %v; reference (%v,%v)", k, r.vs(v), ok, r.vs(v2), r.vs(want.u), found)
 			}
 		case "first":
 			r.its[r.cur], r.poss[r.cur], r.syncs[r.cur] = m.First(), 0, true
@@ -365,11 +665,11 @@ func runC04(c MapCase, o *vk.Obs) string {
 				}
 			}
 			if strings.HasPrefix(op.Kind, "it") && r.its[r.cur] != nil {
-				if ret := r.its[r.cur].Seek(k); ret != r.its[r.cur] {
+				if ret := r.its[r.cur].Seek(r.mkKey(k)); ret != r.its[r.cur] {
 					return r.errf("Iter.Seek does not return its receiver")
 				}
 			} else {
-				r.its[r.cur] = m.Seek(k)
+				r.its[r.cur] = m.Seek(r.mkKey(k))
 			}
 			r.poss[r.cur] = r.lower(k)
 			if r.poss[r.cur] >= len(r.ref) {
@@ -387,7 +687,7 @@ func runC04(c MapCase, o *vk.Obs) string {
 			if r.its[r.cur] == nil || !r.syncs[r.cur] {
 				break // an iterator is only used while synchronised with the map
 			}
-			var ret *omap.Iter[int, int]
+			var ret *omap.Iter[K, U]
 			if op.Kind == "next" {
 				ret = r.its[r.cur].Next()
 				if r.poss[r.cur] >= 0 {
@@ -415,12 +715,12 @@ func runC04(c MapCase, o *vk.Obs) string {
 				break
 			}
 			key := r.its[r.cur].Key()
-			j, found := r.find(key)
+			j, found := r.find(r.kn(key))
 			if !found {
-				return r.errf("iterator key %d is not in the reference", key)
+				return r.errf("iterator key %d is not in the reference", r.kn(key))
 			}
 			if !m.Delete(key) {
-				return r.errf("Delete(%d) of the iterator's current key reports false", key)
+				return r.errf("Delete(%d) of the iterator's current key reports false", r.kn(key))
 			}
 			r.ref = append(r.ref[:j], r.ref[j+1:]...)
 			r.deletes++
@@ -455,5 +755,15 @@ func runC04(c MapCase, o *vk.Obs) string {
 	o.ClassIf(c.Zero, "zero_map")
 	o.Class("cmp=" + c.Cmp)
 	o.ClassIf(c.Mag%3 != 0, "comparator_returns_magnitudes")
+	classElem(o, c.Elem, false)
+	if c.Val == "" {
+		o.Class("val=default")
+	} else {
+		o.Class("val=" + c.Val)
+	}
+	o.ClassIf(r.nat && !c.Zero, "natural_order(omap.New)")
+	o.ClassIf(c.Span%2 == 1, "keys_at_the_ends_of_the_type's_range")
+	o.ClassIf(r.zeroVals > 0, "zero_value_stored")
+	o.ClassIf(r.sameVals > 0, "equal_value_stored_again")
 	return ""
 }
